@@ -55,9 +55,10 @@ Definition gconf_obs_eqb (g : gconf) (o : oconf) : bool :=
   end.
 Fixpoint zlist_eqb (a b : list Z) : bool :=
   match a, b with [] , [] => true | x :: a', y :: b' => (x =? y) && zlist_eqb a' b' | _, _ => false end.
-(* the correction range: its length, and (when the harness hands over the entries) the entries 0 .. n-1 *)
+(* the correction range np.arange(n) (the token is n): its length max(n, 0), and (when the harness hands over the entries) the
+   entries 0 .. n-1 *)
 Definition crng_ok (n : Z) (len_obs : Z) (entries : option (list Z)) : bool :=
-  (n =? len_obs) && match entries with None => true | Some l => zlist_eqb l (map Z.of_nat (seq 0 (Z.to_nat n))) end.
+  (Z.max n 0 =? len_obs) && match entries with None => true | Some l => zlist_eqb l (map Z.of_nat (seq 0 (Z.to_nat n))) end.
 
 Definition zsk_sampler_ok (calls : list (Z * Z * Z)) (d : zdata) (fk : option Samplers) (freq : sk_dyn StratifiedCount)
            (gk : option Samplers) (greq : sk_dyn StratifiedCount) (max_iters : Z)
